@@ -236,6 +236,56 @@ fn real_funcs(ctx: &mut Ctx, thorough: bool) {
     }
 }
 
+/// Seed sweep without a hint in the sharded linear regime: the builder must never allocate more cells than the
+/// largest admissible shard (1% above the average) needs, whatever the seed.
+fn sweep(ctx: &mut Ctx, thorough: bool) {
+    let n = 400_928usize;
+    for seed in 0..if thorough { 64u64 } else { 32 } {
+        for hinted in [false, true] {
+            if hinted && seed % 4 != 0 {
+                continue;
+            }
+            if !ctx.case(|| format!("VFunc real build space n={n} seed={seed} expected_num_keys={}", if hinted { "exact" } else { "absent" })) {
+                continue;
+            }
+            ctx.nontrivial();
+            let b = 19usize;
+            let r = guard(|| {
+                let mut vb = VBuilder::<usize, BitFieldVec<usize>>::default().seed(seed);
+                if hinted {
+                    vb = vb.expected_num_keys(n);
+                }
+                let f = vb.try_build_func(FromIntoIterator::from(0..n), FromIntoIterator::from((0..n).map(|i| if i == 0 { (1 << 19) - 1 } else { i & 0x7FFFF })), no_logging![]).unwrap();
+                bits(&f)
+            });
+            match r {
+                Outcome::Panic(m) => ctx.violation("C11|VFunc|panic", format!("n={n} seed={seed}: {m}")),
+                Outcome::Ret(fb) => {
+                    let mut e = FuseLge3Shards::default();
+                    e.set_up_shards(n, 0.001);
+                    let s = e.num_shards();
+                    let ms = ((1.01 * n as f64) / s as f64).floor() as usize;
+                    e.set_up_graphs(n, ms);
+                    let adm = e.num_vertices() * s;
+                    let bound = adm * b + 4096;
+                    ctx.add("max_sweep_bits_per_key_x1000", 0);
+                    let c = ctx.counters.entry("max_sweep_cells_per_key_x10000".into()).or_insert(0);
+                    *c = (*c).max((fb as f64 / b as f64 / n as f64 * 10000.0) as u64);
+                    if fb > bound {
+                        ctx.violation(
+                            "C11|VFunc|more-cells-than-the-largest-admissible-shard-needs",
+                            format!("n={n} seed={seed} hint={}: mem_size = {fb} bits = {:.4} n b > {adm} cells x {b} bits + 4096 = {bound} ({:.4} n b)", if hinted { "exact" } else { "absent" }, fb as f64 / (n * b) as f64, bound as f64 / (n * b) as f64),
+                        );
+                    }
+                    if fb as f64 > 1.135 * (n * b) as f64 + (2 * 512 * s * b) as f64 + 4096.0 {
+                        ctx.violation("C11|VFunc|space-bound-exceeded", format!("n={n} seed={seed}: {fb} bits = {:.4} n b", fb as f64 / (n * b) as f64));
+                    }
+                }
+            }
+        }
+    }
+}
+
 fn main() {
     let mut ctx = Ctx::from_args();
     start_watchdog(300);
@@ -254,5 +304,6 @@ fn main() {
     edge_arith::<[u64; 2], Mwhc3Shards>(&mut ctx, "Mwhc3Shards", false, true, t);
     edge_arith::<[u64; 2], Mwhc3NoShards>(&mut ctx, "Mwhc3NoShards", false, true, t);
     real_funcs(&mut ctx, t);
+    sweep(&mut ctx, t);
     ctx.finish();
 }
